@@ -32,6 +32,7 @@ RULE = (
     ' Round 7: format-string metacharacters among the odd spellings; id-request warm-ups enumerated.'
     ' Round 8: `stream` path (the line as bytes through a real StreamReader); MQTT path preceded by another message on the same topic.'
     ' Round 9: BOM/zero-width/NUL prefixes and canonically decomposable characters on every path.'
+    ' Round 10: every odd spelling of a field is enumerated with every command (not sampled).'
 )
 ASSUMPTIONS = [
     "spelling classes: canonical -?(0|[1-9][0-9]*); anything else int() parses is a grey zone (verdict not demanded)",
